@@ -23,11 +23,11 @@
     an object whose identity bit was lost: through the whole dispatcher model (`Ufunc.dispatch`:
     unary path, binary path with its dimension check, zero exception, K/R guard, conversion of the
     second operand, rule functions, multiply/divide post-processing, power path) only those whose
-    unit has dimension exactly angle / temperature / logarithmic — and those do
-    (`identity_loss_shows_asIs`, kernel-decided on 90°, 300 K, 3 dB for every route of the table).
-  * `active_routes_classified` — the regenerated table is the hand-written as-is reference or its
-    re-interned variant (kernel-decided over the whole table): a route that stops persisting
-    something breaks this obligation.
+    unit has dimension exactly angle / temperature / logarithmic (and since the C11-01 fix no
+    route loses the bit: `identity_kept_on_every_route`).
+  * `active_routes_classified` — the regenerated table is the hand-written reference
+    (kernel-decided over the whole table): a route that stops persisting something, or stops
+    re-interning dimension symbols, breaks this obligation.
   * `C11_full`, `C11_counterexample`, and one kernel-decided counterexample per defect class,
     each on a concrete witness that the harness replays on the real code.
 -/
@@ -155,7 +155,7 @@ theorem identity_loss_pinned_unary (C : FCtx K) (x : PObj K) (f : String)
     (follow C (.unary f) x.loseCanon).map Res.noCanon = (follow C (.unary f) x).map Res.noCanon := by
   simp only [follow, viaDispatch, PObj.loseCanon, PObj.operand, Ufunc.dispatch]
   apply read_off_canon
-  · intro o o' hf hm; funext v; simp [hf, hm]
+  · intro o o' hf hff hm; funext v; simp [hf, hff, hm]
   · exact unaryPath_canon (C.ufunc x.reg) _ rfl _ x.unit (reprOf x.unit) _ _ h
 
 
@@ -171,7 +171,7 @@ theorem identity_loss_pinned_binaryQ (C : FCtx K) (hb : UeqBlindF C) (x : PObj K
   | ok u1 =>
     simp only [viaDispatch, PObj.operand, Ufunc.dispatch]
     apply read_off_canon
-    · intro o o' hf hm; funext a; simp [hf, hm]
+    · intro o o' hf hff hm; funext a; simp [hf, hff, hm]
     · exact binaryPath_rsim (C.ufunc x.reg) (ueqBlind_of C x.reg hb) _ rfl _ _ _ _
         (rsim_lose x.unit (reprOf x.unit) h) (RSim.refl _) _
 
@@ -181,7 +181,7 @@ theorem identity_loss_pinned_binarySelf (C : FCtx K) (hb : UeqBlindF C) (x : POb
     (follow C (.binarySelf f) x.loseCanon).map Res.noCanon = (follow C (.binarySelf f) x).map Res.noCanon := by
   simp only [follow, PObj.loseCanon, viaDispatch, PObj.operand, Ufunc.dispatch]
   apply read_off_canon
-  · intro o o' hf hm; funext a; simp [hf, hm]
+  · intro o o' hf hff hm; funext a; simp [hf, hff, hm]
   · exact binaryPath_rsim (C.ufunc x.reg) (ueqBlind_of C x.reg hb) _ rfl _ _ _ _
       (rsim_lose x.unit (reprOf x.unit) h) (rsim_lose x.unit (reprOf x.unit) h) _
 
@@ -202,11 +202,11 @@ end general
 
 /-! ### the regenerated route table -/
 
-/-- table obligation: the table regenerated from the live code is the as-is reference or its
-    re-interned variant.  Any route that persists less, more, or differently than written down in
-    `Ref/C11.lean` breaks this. -/
-theorem active_routes_classified :
-    Generated.persistRoutes = Ref.c11AsIs ∨ Generated.persistRoutes = Ref.c11Reinterned := by
+/-- table obligation: the table regenerated from the live code is the hand-written reference.  Any
+    route that persists less, more, or differently than written down in `Ref/C11.lean` — e.g. one
+    that stops re-interning dimension symbols, or a deep copy that resets modified default symbols
+    again — breaks this. -/
+theorem active_routes_classified : Generated.persistRoutes = Ref.c11AsIs := by
   decide
 
 /-- pickle protocols 2…HIGHEST behave alike; 0 and 1 are refused by sympy itself (outside unyt) -/
@@ -214,9 +214,9 @@ theorem pickle_protocols_uniform :
     Generated.pickleProtocolsAgree = true ∧ Generated.pickleLowProtocolsRefusedBySympy = true := by
   decide
 
-/-- every route has a row in both reference tables -/
+/-- every route has a row in the reference table -/
 theorem route_tables_complete :
-    Route.all.all (fun r => (Ref.c11AsIs.get r).isSome && (Ref.c11Reinterned.get r).isSome) = true := by
+    Route.all.all (fun r => (Ref.c11AsIs.get r).isSome) = true := by
   decide
 
 /-! ### the full statement (its counterexamples are kernel-decided in `C11Tab.lean` / `C11Tab2.lean`) -/
